@@ -1,6 +1,7 @@
 package main
 
 import (
+	"bytes"
 	"context"
 	"fmt"
 	"strings"
@@ -159,8 +160,8 @@ func (c *ctx) pubsubRound(r *vlib.Rand, round int) {
 	e.filterR = round%3 == 1
 	// B allows the publisher host and the odd origin peers; the relay is NOT allowed as a
 	// source of its own, so a republication gets through only by attribution to its origin
-	e.allowB = map[int]bool{idP: true}
-	allowList := []string{fmt.Sprint(idP)}
+	e.allowB = map[int]bool{idP: true, idB: true}
+	allowList := []string{fmt.Sprint(idP), fmt.Sprint(idB)}
 	for i := 1; i <= 12; i += 2 {
 		e.allowB[i] = true
 		allowList = append(allowList, fmt.Sprint(i))
@@ -180,7 +181,19 @@ func (c *ctx) pubsubRound(r *vlib.Rand, round int) {
 	if err != nil {
 		panic(err)
 	}
-	e.R, err = announce.NewReceiver(e.hR, topic, announce.WithResend(true), announce.WithFilterIPs(e.filterR))
+	// R and B get topic handles the harness owns, so that plain messages can be published
+	// from their hosts as well
+	tR, cancelR, err := gossiptopic.MakeTopic(e.hR, topic)
+	if err != nil {
+		panic(err)
+	}
+	defer cancelR()
+	tB, cancelB, err := gossiptopic.MakeTopic(e.hB, topic)
+	if err != nil {
+		panic(err)
+	}
+	defer cancelB()
+	e.R, err = announce.NewReceiver(e.hR, "", announce.WithTopic(tR), announce.WithResend(true), announce.WithFilterIPs(e.filterR))
 	if err != nil {
 		panic(err)
 	}
@@ -189,7 +202,8 @@ func (c *ctx) pubsubRound(r *vlib.Rand, round int) {
 	if e.allowB != nil {
 		optsB = append(optsB, announce.WithAllowPeer(func(p peer.ID) bool { return e.allowB[e.peerNo[p]] }))
 	}
-	e.B, err = announce.NewReceiver(e.hB, topic, optsB...)
+	optsB = append(optsB, announce.WithTopic(tB))
+	e.B, err = announce.NewReceiver(e.hB, "", optsB...)
 	if err != nil {
 		panic(err)
 	}
@@ -393,6 +407,61 @@ func (c *ctx) pubsubRound(r *vlib.Rand, round int) {
 		}
 	}
 	_ = usedMsgs
+
+	// a republished (4-field) announce followed by plain (3-field) ones from the relay's own
+	// host and from the receiver's own host: each is attributed to its real sender, whatever
+	// OrigPeer the message before it carried
+	for _, origin := range []int{3, 5} {
+		cidNo, x := fresh()
+		e.log = append(e.log, fmt.Sprintf("R.Direct %d by %d", cidNo, origin))
+		dctx, dcancel := context.WithTimeout(ctx, wait)
+		err := e.R.Direct(dctx, x, peer.AddrInfo{ID: recvdrv.Peer(origin)})
+		dcancel()
+		if err != nil {
+			fail("relay:direct-error", err.Error())
+			break
+		}
+		refR.update(cidNo)
+		e.histR = append(e.histR, fmt.Sprintf("(PDirect %s false, RNil)", coqAnnP(cidNo, origin, nil)))
+		if a, err := nextAnn(e.R, wait); err == nil {
+			gc, gp, ga := e.annOf(a, cids)
+			e.histR = append(e.histR, fmt.Sprintf("(PNext false, RAnn %s)", coqAnnP(gc, gp, ga)))
+		}
+		e.histR = append(e.histR, fmt.Sprintf("(%s, RNil)", coqPMsg(idR, fmt.Sprintf("(OPeer %d)", origin), cidNo, nil)))
+		expectB("republication", idR, fmt.Sprintf("(OPeer %d)", origin), cidNo, origin, nil)
+		c.Eval()
+		// now a plain message: from R's host after origin 3, from B's own host after origin 5
+		from, tp := idR, tR
+		if origin == 5 {
+			from, tp = idB, tB
+		}
+		plainNo, px := fresh()
+		e.log = append(e.log, fmt.Sprintf("host %d publishes plain %d", from, plainNo))
+		var buf bytes.Buffer
+		pmg := message.Message{Cid: px, ExtraData: []byte(fmt.Sprintf("plain-%d", origin))}
+		if err := pmg.MarshalCBOR(&buf); err != nil {
+			panic(err)
+		}
+		if err := tp.Publish(ctx, buf.Bytes()); err != nil {
+			panic(err)
+		}
+		c.Count("pubsub:plain-after-republication")
+		expectB("plain-after-republication", from, "ONone", plainNo, from, nil)
+		// the relay sees it too (allow all): attributed to its sender, also when that is R itself
+		e.histR = append(e.histR, fmt.Sprintf("(%s, RNil)", coqPMsg(from, "ONone", plainNo, nil)))
+		refR.update(plainNo)
+		if a, err := nextAnn(e.R, wait); err != nil {
+			fail("plain-after-republication:relay-not-delivered", fmt.Sprintf("R did not deliver the plain announcement %d published by host %d right after a republication", plainNo, from))
+			e.histR = append(e.histR, "(PNext false, RBlocked)")
+		} else {
+			gc, gp, ga := e.annOf(a, cids)
+			e.histR = append(e.histR, fmt.Sprintf("(PNext false, RAnn %s)", coqAnnP(gc, gp, ga)))
+			if gc != plainNo || gp != from {
+				fail("plain-after-republication:wrong-attribution", fmt.Sprintf("R attributed the plain announcement %d published by host %d to peer %d", plainNo, from, gp))
+			}
+		}
+		c.Eval()
+	}
 
 	cfgB := fmt.Sprintf("{| cap := 64%%nat; filter_ips := %s |}", vlib.CoqBool(e.filterB))
 	cfgR := fmt.Sprintf("{| cap := 64%%nat; filter_ips := %s |}", vlib.CoqBool(e.filterR))
